@@ -52,6 +52,14 @@ Definition RP : N := 41.
 Definition COMMA : N := 44.
 Definition SP : N := 32.
 
+(* items of a tuple display: a, b, c *)
+Definition render_items (f: lit -> list N) : list lit -> list N :=
+  fix go (l: list lit) : list N :=
+    match l with
+    | [] => []
+    | x :: r => match r with [] => f x | _ => f x ++ [COMMA; SP] ++ go r end
+    end.
+
 Fixpoint render_lit (p: N -> bool) (v: lit) : list N :=
   match v with
   | LStr s => py_repr p s
@@ -62,15 +70,9 @@ Fixpoint render_lit (p: N -> bool) (v: lit) : list N :=
   | LNone => T_None
   | LName n => n
   | LTuple l =>
-      let fix items (l: list lit) : list N :=
-        match l with
-        | [] => []
-        | [x] => render_lit p x
-        | x :: r => render_lit p x ++ [COMMA; SP] ++ items r
-        end in
       match l with
       | [x] => LP :: render_lit p x ++ [COMMA; RP]
-      | _ => LP :: items l ++ [RP]
+      | _ => LP :: render_items (render_lit p) l ++ [RP]
       end
   end.
 
@@ -199,14 +201,15 @@ Fixpoint lit_size (v: lit) : nat :=
   | _ => 1%nat
   end.
 
-Fixpoint wf_lit (v: lit) : Prop :=
+Fixpoint wf_litb (v: lit) : bool :=
   match v with
-  | LStr s => wf_str s
-  | LBytes b => wf_bytes b
-  | LName n => name_ok n = true
-  | LTuple l => (fix all (l: list lit) : Prop := match l with [] => True | x :: r => wf_lit x /\ all r end) l
-  | _ => True
+  | LStr s => forallb valid_cp s
+  | LBytes b => forallb (fun c => c <? 256) b
+  | LName n => name_ok n
+  | LTuple l => forallb wf_litb l
+  | _ => true
   end.
+Definition wf_lit (v: lit) : Prop := wf_litb v = true.
 
 (* ---------------------------------------------------------------- equality, for case files *)
 Fixpoint lit_eqb (a b: lit) {struct a} : bool :=
